@@ -25,6 +25,7 @@ type Fail struct {
 	API      string         `json:"api"`   // entry point that misbehaved (for known-finding matching)
 	Shape    string         `json:"shape"` // shape class computed by the check on the failing state
 	Extra    map[string]any `json:"extra,omitempty"`
+	Tier     string         `json:"-"` // tier whose bounds the case indices refer to (set by Report)
 }
 
 func (f *Fail) Error() string { return f.Scenario + ": " + f.What }
@@ -57,7 +58,8 @@ type Run struct {
 	Prop, Tier, Level string
 	Seed              int64
 	ReplayMode        bool
-	Quiet             bool // helper runs (corpus construction): no printing
+	Phase             string // "quick" while a thorough run covers the quick bounds first; "" otherwise
+	Quiet             bool   // helper runs (corpus construction): no printing
 
 	mu          sync.Mutex
 	start       time.Time
@@ -91,6 +93,9 @@ func NewRun(prop, tier, level string, seed int64) *Run {
 func (r *Run) Assume(s string)          { r.mu.Lock(); r.assumptions = append(r.assumptions, s); r.mu.Unlock() }
 func (r *Run) SetExtra(k string, v any) { r.mu.Lock(); r.extra[k] = v; r.mu.Unlock() }
 func (r *Run) AddScenario(s ScenarioStat) {
+	if r.Phase != "" && r.Phase != r.Tier {
+		s.Name = "[" + r.Phase + " bounds] " + s.Name
+	}
 	r.mu.Lock()
 	r.scen = append(r.scen, s)
 	r.mu.Unlock()
@@ -136,6 +141,7 @@ func (r *Run) Report(f *Fail) (known bool) {
 	}
 	r.mu.Lock()
 	defer r.mu.Unlock()
+	f.Tier = r.phaseTier()
 	if id := r.matchKnown(f); id != "" {
 		r.known[id]++
 		return true
@@ -150,6 +156,15 @@ func (r *Run) Report(f *Fail) (known bool) {
 		r.fails = append(r.fails, f)
 	}
 	return false
+}
+
+// phaseTier is the tier whose bounds are being explored right now: a thorough run first
+// covers the quick bounds completely (Phase == "quick"), then goes on to its own.
+func (r *Run) phaseTier() string {
+	if r.Phase != "" {
+		return r.Phase
+	}
+	return r.Tier
 }
 
 func (r *Run) NumFails() int { r.mu.Lock(); defer r.mu.Unlock(); return len(r.fails) }
@@ -191,7 +206,7 @@ func (r *Run) Finish() int {
 		}
 		seen[key] = true
 		p := r.writeReplay(f)
-		if r.confirm(p) {
+		if r.confirm(p, f.Tier) {
 			vios = append(vios, vio{f, p})
 		} else {
 			r.HarnessError(fmt.Sprintf("failure did not reproduce 5/5 on replay (not reported as violation): %s: %s [%s]", f.Scenario, f.What, p))
@@ -259,7 +274,11 @@ func (r *Run) Finish() int {
 }
 
 func (r *Run) writeReplay(f *Fail) string {
-	doc := map[string]any{"property": r.Prop, "tier": r.Tier, "scenario": f.Scenario, "case": f.Case, "what": f.What, "api": f.API, "shape": f.Shape, "extra": f.Extra}
+	tier := f.Tier
+	if tier == "" {
+		tier = r.Tier
+	}
+	doc := map[string]any{"property": r.Prop, "tier": tier, "scenario": f.Scenario, "case": f.Case, "what": f.What, "api": f.API, "shape": f.Shape, "extra": f.Extra}
 	b, _ := json.MarshalIndent(doc, "", " ")
 	h := sha1.Sum(b)
 	dir := filepath.Join(Root, "out", "replays")
@@ -270,12 +289,15 @@ func (r *Run) writeReplay(f *Fail) string {
 }
 
 // confirm re-executes the replay file 5 times in fresh processes; all must fail.
-func (r *Run) confirm(path string) bool {
+func (r *Run) confirm(path, tier string) bool {
+	if tier == "" {
+		tier = r.Tier
+	}
 	if os.Getenv("VERIF_NO_CONFIRM") != "" {
 		return true
 	}
 	for i := 0; i < 5; i++ {
-		cmd := exec.Command(os.Args[0], "-prop", r.Prop, "-tier", r.Tier, "-replay", path)
+		cmd := exec.Command(os.Args[0], "-prop", r.Prop, "-tier", tier, "-replay", path)
 		cmd.Env = os.Environ()
 		out, err := cmd.CombinedOutput()
 		if err == nil || !strings.Contains(string(out), "REPLAY-FAIL") {
@@ -288,6 +310,7 @@ func (r *Run) confirm(path string) bool {
 // ReplayDoc is what -replay loads.
 type ReplayDoc struct {
 	Property string          `json:"property"`
+	Tier     string          `json:"tier"`
 	Scenario string          `json:"scenario"`
 	Case     json.RawMessage `json:"case"`
 	What     string          `json:"what"`
